@@ -129,7 +129,7 @@ def oracle_case(cid, c, out):
             st["down"] = st.get("down", 0) + 1
             if res != "err":
                 fails.append("a batch sent while the raft group was not ready was answered %r instead of an error" % res)
-        elif f[0] == "B":
+        elif f[0] in ("B", "BE"):
             st["rpc"] += 1
             if res == "ok":
                 # an acknowledged call was proposed and applied: every entry is covered by the position of its cluster
@@ -173,7 +173,7 @@ def oracle_case(cid, c, out):
         changed = [cl for cl in s if s[cl] != prev_s.get(cl)]
         if changed and jl - prev_len < len(changed):
             fails.append("position of %s advanced at %s without applied data (journal %d -> %d)" % (changed, op, prev_len, jl))
-        if res not in ("ok", "err", "none", "skip") and not res.startswith("ok"):
+        if res not in ("ok", "err", "none", "skip", "any") and not res.startswith("ok"):
             fails.append("unexpected result %s at %s" % (res, op))
         prev_s, prev_len = s, jl
     if len(j) != prev_len:
@@ -219,7 +219,7 @@ def oracle_case(cid, c, out):
                     if got is not None and got[2] == -1 and (got[0], got[1]) == ents[kpt - 1][:2]:
                         kk = max(kk, kpt)        # the position is the snapshot's own: it has been installed
                     continue
-                if f[0] != "B":
+                if f[0] not in ("B", "BE"):
                     continue
                 for e in f[1:]:
                     g = e.split(".")
